@@ -53,15 +53,23 @@ func execKeys(c *ctx, in ev) []ev {
 			out["un_rsa_n"], out["un_rsa_e"] = B(k2.N.Bytes()), B(beInt(k2.E))
 		}
 		return []ev{out}
+	case "SpkiPair": // the same modulus with several exponents, one after the other
+		out := []ev{}
+		for _, e := range gL(in, "es") {
+			out = append(out, execKeys(c, ev{"op": "Spki", "n": in["n"], "e": e})...)
+		}
+		return out
 	case "DecodedNameKey":
 		// a name key received as bytes (every suite go-hpke implements), decoded, then used by a client
 		orig := gB(in, "enc")
 		out := ev{"op": "NameKey", "fields": ev{"id": 0, "kem": 0, "pk": B(nil), "kdf": 0, "aead": 0}, "marshal": B(nil), "sha_marshal": B(nil),
 			"name_key_id": B(nil), "orig": B(orig), "decoded": false}
-		nk, err := type3.UnmarshalEncapKey(orig)
+		buf := append([]byte{}, orig...)
+		nk, err := type3.UnmarshalEncapKey(buf)
 		if err != nil {
 			return []ev{out}
 		}
+		poison(buf) // the buffer the key was decoded from is the caller's: it is reused for something else
 		out["decoded"] = true
 		id, kem, kdf, aead, pk := nk.VerifFields()
 		m := nk.Marshal()
@@ -163,6 +171,12 @@ func genKeys(c *ctx, emit func(ev)) {
 	for i := 0; i < 4; i++ {
 		k := rsaKey(i)
 		emit(ev{"op": "Spki", "n": B(k.N.Bytes()), "e": B(beInt(k.E))})
+		emit(ev{"op": "SpkiPair", "n": B(k.N.Bytes()), "es": []any{B([]byte{1, 0, 1}), B([]byte{3}), B([]byte{1, 0, 1}), B([]byte{0x7f, 0xff, 0xff, 0xff})}})
+	}
+	for _, L := range []int{1, 64, 127, 128, 129, 255, 256, 257, 384, 512} {
+		n := randBytes(r, L)
+		n[0] |= 1
+		emit(ev{"op": "SpkiPair", "n": B(n), "es": []any{B([]byte{3}), B([]byte{1, 0, 1}), B([]byte{3})}})
 	}
 	nIss := c.tierInt(6, 40)
 	for i := 0; i < nIss; i++ {
